@@ -13,7 +13,7 @@
    does not, hence the side condition; the harness compares with == and feeds TypedDict values
    in shuffled insertion order. *)
 From Coq Require Import List String ZArith Bool.
-From Verif Require Import Core TyModel TyProofs TyRoundtrip.
+From Verif Require Import Core TupleIdx TyModel TyTuple TyProofs TyStrict TyRoundtrip.
 Import ListNotations.
 
 (* reference level *)
@@ -39,8 +39,8 @@ Theorem C01_roundtrip_codec : forall (E: senv) (P: prims),
 Proof.
   intros E P HE v t w HC HL HV Hpk.
   rewrite (encode_is_ref true E P v t HC) in Hpk.
-  rewrite (decode_is_ref E P w t).
-  exact (ref_roundtrip E P HE v t w HC HL HV Hpk).
+  pose proof (ref_roundtrip E P HE v t w HC HL HV Hpk) as Hrt.
+  rewrite (decode_is_ref_strict E P w t); [exact Hrt | rewrite Hrt; discriminate].
 Qed.
 Print Assumptions C01_roundtrip_codec.
 
@@ -69,7 +69,10 @@ Example C01_nonvacuous :
   forallb cls_ok exE = true /\ conf_ord exE exV (SData "D") = true /\ lossless (SData "D") = true /\
   vals_ok exP exV = true /\
   exists w, pk exE exP exV (cp true (SData "D")) = Ok w /\ uk exE exP w (cu true (SData "D")) = Ok exV.
-Proof. repeat split; try (vm_compute; reflexivity). eexists. split; vm_compute; reflexivity. Qed.
+Proof.
+  repeat (match goal with |- (_ = _) /\ _ => split; [vm_compute; reflexivity|] end).
+  eexists. split; [vm_compute; reflexivity | vm_compute; reflexivity].
+Qed.
 
 (* strongest form: the generated encoder always succeeds on such a value and the generated
    decoder gives the value back (existence + round trip, no hypothesis left about [w]) *)
@@ -82,7 +85,8 @@ Proof.
   intros E P HE v t HC HL HV.
   destruct (ref_enc_total true E P v t HC HV) as [w Hw].
   exists w. rewrite (encode_is_ref true E P v t HC). split; [exact Hw|].
-  rewrite (decode_is_ref E P w t). exact (ref_roundtrip E P HE v t w HC HL HV Hw).
+  pose proof (ref_roundtrip E P HE v t w HC HL HV Hw) as Hrt.
+  rewrite (decode_is_ref_strict E P w t); [exact Hrt | rewrite Hrt; discriminate].
 Qed.
 Print Assumptions C01_roundtrip_total.
 
@@ -106,7 +110,10 @@ Example C01_named_typed_nonvacuous :
     Ok (VList [VInt 1; VList [VInt 2; VInt 3];
                VDict [(VStr "r", VList [VList [VInt 4; VList [VInt 5; VInt 6]; VNone]]); (VStr "o", VStr "2024-01-02")]]) /\
   exists w, pk ntE exP ntV (cp true (SNamed "NT")) = Ok w /\ uk ntE exP w (cu true (SNamed "NT")) = Ok ntV.
-Proof. repeat split; try (vm_compute; reflexivity). eexists. split; vm_compute; reflexivity. Qed.
+Proof.
+  repeat (match goal with |- (_ = _) /\ _ => split; [vm_compute; reflexivity|] end).
+  eexists. split; [vm_compute; reflexivity | vm_compute; reflexivity].
+Qed.
 
 (* the order side condition is needed for = (not for ==): the same dict with the optional key
    first conforms, but comes back with its keys in canonical order *)
@@ -115,4 +122,58 @@ Example C01_typed_order_canonicalised :
   conf ntE v (STyped "TD") = true /\ conf_ord ntE v (STyped "TD") = false /\
   (w <- pk ntE exP v (cp true (STyped "TD")) ;; uk ntE exP w (cu true (STyped "TD")))
     = Ok (VDict [(VStr "r", VList []); (VStr "o", VLeaf "date" "2024-01-02")]).
-Proof. repeat split; vm_compute; reflexivity. Qed.
+Proof. cbv zeta. repeat (match goal with |- _ /\ _ => split end); vm_compute; reflexivity. Qed.
+
+(* tuples with an unpacked segment round-trip (any middle length) *)
+Example C01_unpacked_tuple :
+  let t := STupleU [SIntT] (STupleVar (SLeaf "date")) [SBoolT; SStrT] in
+  let v := VTuple [VInt 1; VLeaf "date" "2024-01-02"; VLeaf "date" "2024-01-03"; VBool true; VStr "z"] in
+  conf_ord [] v t = true /\ lossless t = true /\ vals_ok exP v = true /\
+  pk [] exP v (cp true t) = Ok (VList [VInt 1; VStr "2024-01-02"; VStr "2024-01-03"; VBool true; VStr "z"]) /\
+  uk [] exP (VList [VInt 1; VStr "2024-01-02"; VStr "2024-01-03"; VBool true; VStr "z"]) (cu true t) = Ok v /\
+  uk [] exP (VList [VInt 1; VBool true; VStr "z"]) (cu true t) = Ok (VTuple [VInt 1; VBool true; VStr "z"]).
+Proof. cbv zeta. repeat (match goal with |- _ /\ _ => split end); vm_compute; reflexivity. Qed.
+
+(* abstract and special collection classes: the decoder rebuilds the canonical concrete class
+   (Sequence -> list, Mapping -> dict, Deque -> deque, OrderedDict, defaultdict, MappingProxyType, Counter (int values),
+   ChainMap (wire form: the list of its maps; ChainMap() is ChainMap({}))) *)
+Example C01_collections :
+  let box b x := VObj (box_name b) [("", x)] in
+  let t := STupleFix [SBox BDeque (SSeq SIntT); SBox BOrdered (SMap SStrT (SSeq SIntT)); SBox BCounter (SMap SStrT SIntT);
+                      SBox BChain (SSeq (SMap SStrT SIntT)); SBox BChain (SSeq (SMap SStrT SIntT)); SBox BProxy (SMap SIntT SStrT)] in
+  let v := VTuple [box BDeque (VList [VInt 1; VInt 2]); box BOrdered (VDict [(VStr "b", VList [VInt 1]); (VStr "a", VList [])]);
+                   box BCounter (VDict [(VStr "x", VInt 2)]); box BChain (VList [VDict [(VStr "k", VInt 1)]; VDict []]);
+                   box BChain (VList []); box BProxy (VDict [(VInt 1, VStr "z")])] in
+  conf_ord [] v t = true /\ lossless t = true /\ vals_ok exP v = true /\
+  pk [] exP v (cp true t) =
+    Ok (VList [VList [VInt 1; VInt 2]; VDict [(VStr "b", VList [VInt 1]); (VStr "a", VList [])]; VDict [(VStr "x", VInt 2)];
+               VList [VDict [(VStr "k", VInt 1)]; VDict []]; VList [VDict []]; VDict [(VInt 1, VStr "z")]]) /\
+  (w <- pk [] exP v (cp true t) ;; uk [] exP w (cu true t)) = Ok v /\
+  (* the non-canonical representation of the empty ChainMap does not conform *)
+  conf [] (box BChain (VList [VDict []])) (SBox BChain (SSeq (SMap SStrT SIntT))) = false.
+Proof. cbv zeta. repeat (match goal with |- _ /\ _ => split end); vm_compute; reflexivity. Qed.
+
+(* leaf- and enum-typed mapping keys: Dict[date, int] and Dict[UUID, List[E]].  The hypothesis [vals_ok] asks,
+   for every dict in the value, that the wire forms of its keys be pairwise distinct (and, as for every leaf,
+   that parse (render k) = k): exactly what the round trip of the keys needs *)
+Example C01_leaf_keys :
+  let t := STupleFix [SDict (SLeaf "date") SIntT; SDict (SLeaf "UUID") (SList (SEnum "E"))] in
+  let v := VTuple [VDict [(VLeaf "date" "2024-01-02", VInt 1); (VLeaf "date" "2024-01-03", VInt 2)];
+                   VDict [(VLeaf "UUID" "0000-01", VList [VEnum "E" "A"; VEnum "E" "B"])]] in
+  conf_ord [] v t = true /\ lossless t = true /\ vals_ok exP v = true /\
+  pk [] exP v (cp true t) = Ok (VList [VDict [(VStr "2024-01-02", VInt 1); (VStr "2024-01-03", VInt 2)];
+                                       VDict [(VStr "0000-01", VList [VStr "A"; VStr "B"])]]) /\
+  (w <- pk [] exP v (cp true t) ;; uk [] exP w (cu true t)) = Ok v.
+Proof. cbv zeta. repeat (match goal with |- _ /\ _ => split end); vm_compute; reflexivity. Qed.
+
+(* ... and it is needed: with a rendering that identifies two keys present, the dict loses an entry *)
+Definition collP : prims := {|
+  p_render := fun k w => VStr "same"; p_parse := fun k v => Some "x"; p_enum_value := fun e m => Some (VStr m);
+  p_enum_of := fun e v => None; p_b64enc := fun b => b; p_b64dec := fun v => None;
+  p_int := fun _ => None; p_float := fun _ => None; p_str := fun _ => None |}.
+Example C01_leaf_keys_hypothesis_needed :
+  let t := SDict (SLeaf "date") SIntT in
+  let v := VDict [(VLeaf "date" "x", VInt 1); (VLeaf "date" "y", VInt 2)] in
+  conf_ord [] v t = true /\ lossless t = true /\ vals_ok collP v = false /\
+  pk [] collP v (cp true t) = Ok (VDict [(VStr "same", VInt 2)]).
+Proof. cbv zeta. repeat (match goal with |- _ /\ _ => split end); vm_compute; reflexivity. Qed.
